@@ -320,9 +320,9 @@ cdef class LinkedListNNPS(NNPS):
         self.ncells_per_dim.data[2] = ncz
 
         # total number of cells
-        _ncells = ncx
-        if dim == 2: _ncells = ncx * ncy
-        if dim == 3: _ncells = ncx * ncy * ncz
+        # The flattened cell index always uses all three directions (see
+        # `flatten`), so count the cells in all of them.
+        _ncells = ncx * ncy * ncz
         return _ncells
 
     @cython.boundscheck(False)
